@@ -1,3 +1,7 @@
+"""C02: the core state machine, plus the live cross-check of the simulated kernel (harness/props/live_core.py: the same
+scenarios on real processes; no Lean side)."""
 from harness.corecheck import make
-MODULE = make("C02", ["CircusProofs/Props/C02.lean"],
-              ["CircusProofs/Core/Pres.lean", "CircusProofs/Core/Generic.lean"])
+from harness.props import live_core
+PARTS = [make("C02", ["CircusProofs/Props/C02.lean"],
+              ["CircusProofs/Core/Pres.lean", "CircusProofs/Core/Generic.lean"]),
+         live_core]
